@@ -20,6 +20,8 @@ VARIANTS = {
     "asan": {"type": "Debug",
              "flags": "-D%s -O1 -g -fsanitize=address,undefined -fno-sanitize-recover=all -fno-omit-frame-pointer" % GUARD,
              "openmp": "OFF"},
+    # real threads (std::thread in the harness proxy's smp loops) under ThreadSanitizer; no OpenMP runtime involved
+    "tsan": {"type": "Debug", "flags": "-D%s -O1 -g -fsanitize=thread -fno-omit-frame-pointer" % GUARD, "openmp": "OFF"},
 }
 
 
